@@ -31,9 +31,9 @@ COMPONENTS = {"real": ["smpl_extract (all of it: actions, akai/*, util/*, struct
                        "stdout captured", "output directory: real files in a /dev/shm sandbox observed through an audit hook"]}
 ASSUMPTIONS = ["file, volume and stem names are [A-Z0-9] words with single inner spaces (sanitising is the identity on them); hostile names are C05/C06",
                "root key/semitone bytes are kept where the WAV smpl note stays in 0..127 (other values are C04's sweep)",
-               "stereo pairs have equal length and equal rate", "start < end (an empty window is outside 'well-formed')"]
+               "stereo pairs have equal length and equal rate"]
 EXPECTED_PROBES = ["head_not_lowest", "exact_fill", "multi_partition", "reserved_run_dir", "start_gt_0", "end_lt_n", "empty_volume",
-                   "stereo_pair", "rate_zero", "dirs_after_data", "knob_not_default", "zero_length_sample", "cli_crosscheck", "dir_spans_sectors", "file_ge_4_sectors"]
+                   "stereo_pair", "rate_zero", "dirs_after_data", "knob_not_default", "zero_length_sample", "cli_crosscheck", "dir_spans_sectors", "file_ge_4_sectors", "empty_window"]
 SHRINK = {"max_attempts": 250, "max_seconds": 60.0,
           "simple_values": {"policy": ["contiguous"], "mode": ["chain"], "block": [4096], "rate": [44100]}}
 KNOBS = [2, 4, 6, 64, 510, 4096, 4096, 4096, 8192, 65536]
@@ -41,7 +41,7 @@ CLI_EVERY = 50
 
 
 def gen(rng: random.Random, tier: str, index: int) -> dict:
-    model = gen_buildable(rng, many_files=0.012)
+    model = gen_buildable(rng, many_files=0.012, allow_empty_window=True)
     return {"model": model, "block": pick_knob(rng, model), "cli": index % CLI_EVERY == 7}
 
 
@@ -156,6 +156,8 @@ def probes_for(res: RunResult, model: dict, lay: A.AkaiLayout) -> bool:
                 n = f["n"]
                 if n == 0:
                     res.probes["zero_length_sample"] += 1
+                if n > 0 and f.get("start", 0) == f.get("end", n):
+                    res.probes["empty_window"] += 1
                 if f.get("start", 0) > 0:
                     res.probes["start_gt_0"] += 1
                 if f.get("end", n) < n:
